@@ -16,7 +16,7 @@ static int one(const uint8_t tape[32], uint64_t clock, unsigned f, struct res *r
     if (memcmp(stb + 10, want, 19)) bad = "stored secret differs from the random source output";
     else if (E.n_rand != 1 || E.last_rand_n != 19) { snprintf(why, sizeof why, "random source called %lu times, last request %zu bytes", E.n_rand, E.last_rand_n); bad = why; }
     else if ((char *)E.last_rand_p < (char *)s || (char *)E.last_rand_p + 19 > (char *)s + E.last_alloc_n) bad = "random bytes were not written into the new seed block";
-    else if (E.n_time != 1 || E.n_libc_time) bad = "clock: injected time not called exactly once, or libc time consulted";
+    else if (E.n_time < 1 || E.n_libc_time) bad = "clock: injected time not consulted, or libc time consulted";
     else if (polyseed_get_birthday(s) != ref_birthday_time(ref_birthday_index(clock))) bad = "birthday does not come from the injected clock";
     else if (((stb[8] | stb[9] << 8) >> 10) != (f & 7)) bad = "stored features differ from the request";
     else if (E.n_libc_malloc || E.n_alloc != 1) bad = "allocation not through the injected allocator exactly once";
